@@ -83,7 +83,7 @@ def configs(tier):
                                     for entry in ("map", "node", "node-renamed"):
                                         if clone is not False and kind != "single":
                                             continue
-                                        if entry == "node-renamed" and (bcast or nparams > 2):
+                                        if entry == "node-renamed" and nparams > 2:
                                             continue
                                         orders_ = ["same"]
                                         if nparams >= 2 and not fail and not bcast and entry != "node-renamed":
@@ -164,6 +164,8 @@ def run_cfg(cfg, runner, k, ch):
         spec = T.gnode("item", inner, map_over=list(ps), map_mode=cfg["mode"], map_err=cfg["eh"], clone=cfg["clone"])
         if cfg["entry"] == "node-renamed":
             rn_in = {p: p + "s" for p in ps}
+            if cfg["bcast"]:
+                rn_in["cfg"] = "cfgs"  # the broadcast (possibly cloned) input is renamed on the wrapper as well
             outs = _outs(cfg["kind"])
             spec["rename_in"] = rn_in
             spec["rename_out"] = {o: o + "s" for o in outs}
@@ -172,7 +174,7 @@ def run_cfg(cfg, runner, k, ch):
         outer = T.prog([spec])
         x = execute(outer, inputs_c, runner=runner, chooser=ch, h=h, error_handling="raise", max_concurrency=k, canon_inputs=False)
     x.h.cfg_ids = ids
-    x.h.cfg_orig = id(inputs_c.get("cfg")) if cfg["bcast"] else None
+    x.h.cfg_orig = id(inputs_c.get("cfgs" if cfg["entry"] == "node-renamed" else "cfg")) if cfg["bcast"] else None
     return x
 
 
